@@ -40,7 +40,7 @@ def run(ck):
         ck.violation("L1.value-provenance", "L1.value-provenance|parse-start", po[0].where(), "httpHeaderParseOffset parses %s, not the findDigits() result" % E.key(a[0]))
     defs = ck.local_defs(cv)
     p_raw, p_size = cv.params[0]["d"], cv.params[1]["d"]
-    ends = [n for n, ds in defs.items() if len(ds) == 1 and E.key(ds[0]) == "(%s + %s)" % (p_raw, p_size)]
+    ends = [n for n, ds in defs.items() if len(ds) == 1 and E.ckey(ds[0]) == E.cbin("+", p_raw, p_size)]
     for s in ck.sites(fl, ev_call(CI + "goodSuffix"), "goodSuffix()", 1):
         g = E.strip(s.ev["x"])["a"]
         if E.m_is_ref(end)(g[0]) and E.strip(g[1]).get("d") in ends:
